@@ -9,6 +9,6 @@ From Selene Require Export Base.Util.
 
 Definition bit (b : bool) (v : N) : N := if b then v else 0%N.
 
-Definition run {C} (check : C -> N * N) (cases : list (N * C)) : list (N * N * N) :=
-  filter (fun r => negb (N.eqb (snd (fst r)) 0 && N.eqb (snd r) 0))
-         (map (fun ic => let r := check (snd ic) in (fst ic, fst r, snd r)) cases).
+Definition run {C} (check : C -> N * N) (cases : list (N * C)) : N * list (N * N * N) :=
+  pair (N.of_nat (List.length cases)) (filter (fun r => negb (N.eqb (snd (fst r)) 0 && N.eqb (snd r) 0))
+         (map (fun ic => let r := check (snd ic) in (fst ic, fst r, snd r)) cases)).
